@@ -144,3 +144,19 @@ reg(
     TECHNIQUE="differential runtime monitoring of read-API call sequences against the generator's payload (byte equality + per-call contracts)",
     REQUIRED_MONITORS={"quick": {"response": 8000, "concatenation": 6000, "size_rules": 6000, "preload_data": 200}, "thorough": {"response": 10**5, "concatenation": 10**5, "preload_data": 1000}},
 )
+
+reg(
+    "C13",
+    LEVEL="fault_enumeration",
+    RULE="(response spec, damage, read pattern) triples: C12's responses damaged by (a) truncation at every byte of the body section for small bodies (sampled for large) followed by EOF, (b) replacement of every digit of chunk-size lines by a non-hex character or removal of the size, (c) single-byte corruption of the compressed stream inside complete framing, (d) an incomplete content stream inside complete framing; read with read(), read(n) loops, read1(n) loops, read1() loops, readinto, stream(a), read_chunked(a), iteration and preload through a real pool, followed by a second request on the same pool; a case is the triple; all non-trivial; distinct = distinct triples",
+    ASSUMPTIONS=COMMON_ASSUMPTIONS + [
+        "three-valued: cuts at or after the '0' of the terminating chunk, truncated gzip/deflate streams inside complete framing, corruption the reference decoder (zlib/zstandard used directly) does not notice, and corruption in the second gzip member (documented trailing-garbage tolerance) are 'either'; close-delimited bodies are excluded",
+        "truncation is modelled as EOF (server closes); a stalled server (read timeout) is not generated here",
+    ],
+    SHARDS={"quick": 8, "thorough": 16},
+    BUDGET={"quick": 60, "thorough": 480},
+    LEVEL_TEXT="Fault enumeration with runtime monitors: for every damage point and every read pattern the monitor observes whether the read sequence reached a normal end of body without ProtocolError/IncompleteRead/DecodeError (violation when the point is must-detect), which exception class surfaced, whether the carrying socket was closed, and on which socket the pool's next request was answered.",
+    LEVEL_NOTE="Trusts the damage classifier (position relative to the terminating chunk; zlib/zstandard as reference decoders) and the in-memory network's EOF semantics.",
+    TECHNIQUE="fault enumeration (every truncation point x read API) with an end-of-body monitor and a connection-reuse monitor on the in-memory network",
+    REQUIRED_MONITORS={"quick": {"damaged_response": 5000, "must_detect": 3000, "second_request": 3000}, "thorough": {"damaged_response": 50000, "must_detect": 30000, "second_request": 30000}},
+)
